@@ -493,7 +493,8 @@ class TrainerWorld(World):
             ctx.step(1, cfg["dt"])
             ctx.judged += 1
             ctx.log("step", x, y, reps[0][1].weight)
-            if np.any(np.abs(deltas[0] - deltas[1]) > 1e-6 + 1e-5 * np.abs(deltas[1])):
+            # float32 event clocks accumulate differently in the two implementations (dt such as 0.1): same tolerance as the closed-form oracles
+            if np.any(np.abs(deltas[0] - deltas[1]) > 3e-5 + 3e-4 * np.abs(deltas[1])):
                 ctx.fail("cross_implementation", dict(facts, a=names[0], b=names[1]),
                          f"{names[0]} update {deltas[0].reshape(-1)[:6].tolist()} != {names[1]} update {deltas[1].reshape(-1)[:6].tolist()}")
             nz += int(np.any(deltas[0] != 0))
